@@ -81,7 +81,20 @@ _PFX_FILES = [[["src", "a.c"], [["Def", "T0", 1], ["Inc", ["Q", ["g.h"]]], ["Cod
               [["src", "h.h"], [["Once"], ["Def", "F0", 1]]]]
 _PFX_E = lambda f: [["src", f], [], [], [["h.h"]]]
 
+# the shape of another seeded regression ("a file that is one node already recorded for the platform is not
+# walked again"): api.h is ONLY `#include "detail/impl.h"`, fwd.h only `#define W0 1`; both commands of P0 reach them
+_ONE_FILES = [[["src", "a.c"], [["Inc", ["Q", ["api.h"]]], ["Inc", ["Q", ["fwd.h"]]], ["Code"]]],
+              [["src", "api.h"], [["Inc", ["Q", ["detail", "impl.h"]]]]],
+              [["src", "b.c"], [["Inc", ["Q", ["api.h"]]], ["Inc", ["Q", ["fwd.h"]]], ["If", ["Defd", "F0"]], ["Code"], ["Else"], ["Code"], ["Endif"],
+                                ["If", ["Defd", "W0"]], ["Code"], ["Endif"]]],
+              [["src", "detail", "impl.h"], [["Once"], ["Def", "F0", 1], ["Code"]]],
+              [["src", "fwd.h"], [["Def", "W0", 1]]]]
+_ONE_E = lambda f, incs=(): [["src", f], [], [], [list(i) for i in incs]]
+
 CORPUS_EXTRA = [
+    ["lib", _ONE_FILES, [["P0", [_ONE_E("a.c"), _ONE_E("b.c")]], ["P1", [_ONE_E("b.c")]]], 21],
+    ["lib", _ONE_FILES, [["P0", [_ONE_E("a.c", [["fwd.h"]]), _ONE_E("b.c", [["fwd.h"]])]]], 22],
+    ["cli", _ONE_FILES, [["P0", [_ONE_E("b.c"), _ONE_E("a.c"), _ONE_E("b.c")]], ["P1", [_ONE_E("a.c")]]], 23],
     ["lib", _PFX_FILES, [["P0", [_PFX_E("a.c"), _PFX_E("b.c")]]], 11],
     ["lib", _PFX_FILES, [["P0", [_PFX_E("b.c"), _PFX_E("a.c"), _PFX_E("b.c")]], ["P1", [_PFX_E("b.c")]]], 12],
     ["cli", _PFX_FILES, [["P0", [_PFX_E("a.c"), _PFX_E("b.c")]], ["P1", [_PFX_E("b.c")]]], 13],
@@ -118,6 +131,7 @@ class C08(Check):
             "cli (codebasin -R summary and codebasin.tree in process for every -p selection, shuffled databases, mixed compilers; a sample "
             "re-run in a fresh subprocess); plus an exhaustive block over 4 entries x 2 micro code bases and a malformed stream. "
             "2-4 commands of a platform often share IDENTICAL options with 0-2 -include, and compiled files define/undefine private macros (T0-T2) that other compiled files and shared headers test; "
+            "0-2 single-node files (a header that is only an #include / #define / #undef / #pragma once / one code block) reached early by the compiled files; "
             "non-trivial = the hoisted-Platform, cached-include or prefix-header-cache variant of the model gives a different attribution on the case "
             "(i.e. the case can expose state leaking between commands)")
     assumptions = ["paths are absolute, normalised, without symbolic links (C13/C15)",
@@ -127,7 +141,7 @@ class C08(Check):
     def __init__(self, tier, seed):
         super().__init__(tier, seed)
         self.sensitive = {}
-        self.dist = {"lib": 0, "cli": 0, "platforms": {}, "commands": {}, "hoisted_differs": 0, "cached_differs": 0, "prefix_cache_differs": 0, "cases_with_same_option_group": 0,
+        self.dist = {"lib": 0, "cli": 0, "platforms": {}, "commands": {}, "hoisted_differs": 0, "cached_differs": 0, "prefix_cache_differs": 0, "cases_with_same_option_group": 0, "cases_with_single_node_file": 0,
                      "impl_find_calls": 0, "cli_inproc_calls": 0, "cli_subprocess_calls": 0, "malformed": 0, "exhaustive_block": 0}
         self.subproc_budget = 6 if tier == "quick" else 60
 
@@ -313,6 +327,7 @@ class C08(Check):
                     seen[kk] = seen.get(kk, 0) + 1
                 nsame += sum(1 for v in seen.values() if v >= 2)
             self.dist["cases_with_same_option_group"] += int(nsame > 0)
+            self.dist["cases_with_single_node_file"] += int(any(len(ls) == 1 for _, ls in case[1]))
         self.sensitive[key] = hd or kd or pd
         if m[0] != "Ok":
             return self.err_of(m) if case[0] == "lib" else None
